@@ -329,6 +329,7 @@ def template_cond(draw, ctx: Ctx, force=None):
         T += ["indep_and_or3", "indep_and_or3", "indep_and_join3"]
     T += ["same_var_or", "not_over_and", "not_over_or", "and_of_ors_samevar"] if cfg.allow_not else \
         ["same_var_or", "and_of_ors_samevar"]
+    T += ["same_comparison_twice"]
     if cfg.allow_truth and cfg.allow_not and "starts" not in cfg.exclude_leaves:
         T += ["truth_then_nested_use"]
     if cfg.allow_preds and cfg.allow_any and "tval" not in cfg.exclude_leaves:
@@ -369,6 +370,17 @@ def template_cond(draw, ctx: Ctx, force=None):
                                        ["not", "not_", ["in", "in_", ["const", draw(st.sampled_from(["x", "y"]))], T_]],
                                        ["cmp", "!=", T_, ["const", draw(st.sampled_from(["x", "xy"]))]]]))
         return ["and", f(), [["truth", T_], second]]
+    if t == "same_comparison_twice":
+        # one comparison (object) occurring twice in a negation-free condition: or_(a, and_(a, b)), and_(a, or_(a, b)), ...
+        vs_ = pick_vars(draw, ctx, True)
+        a_ = leaf(draw, ctx, vs_)
+        while a_[0] not in ("cmp", "in"):
+            a_ = ["cmp", draw(st.sampled_from(CMP_OPS)), int_term(draw, ctx, vs_[0]), const_int(draw, ctx)]
+        b_ = leaf(draw, ctx, pick_vars(draw, ctx, False))
+        inner_k, outer_k = draw(st.sampled_from([("and", "or"), ("or", "and"), ("or", "or"), ("and", "and")]))
+        inner = [inner_k, f(), list(draw(st.permutations([a_, b_])))]
+        ctx.one_comparison_object_twice = True
+        return [outer_k, f(), list(draw(st.permutations([a_, inner])))]
     if t == "value_equal_join":
         # an equality join whose one side is a bare variable: y == x.ref, x.ref == y, x == y - over data with value-equal
         # but distinct objects (EntV) the join is on ==, not on identity
@@ -464,6 +476,10 @@ def template_cond(draw, ctx: Ctx, force=None):
     inner_kind = "and" if t == "not_over_and" else "or"
     inner = [inner_kind, f(), [cond_tree(draw, ctx, 1, True), cond_tree(draw, ctx, 1, True)]]
     return ["not", draw(st.sampled_from(["not_", "~"])), inner]
+
+
+def _has_not_(c):
+    return any(n[0] == "not" for n in _walk_cond(c))
 
 
 def _walk_cond(c):
@@ -566,6 +582,8 @@ def query_case(draw, cfg: Cfg):
     case = {"ents": recs, "doms": doms, "vars": vars_, "cond": cond,
             "dom_kind": draw(st.sampled_from(cfg.dom_kinds)),
             "split_top": draw(st.booleans()), "quant": cfg.quant}
+    if getattr(ctx, "one_comparison_object_twice", False) and cond is not None and not _has_not_(cond):
+        case["one_comparison_object_twice"] = True
     if getattr(ctx, "same_object_plain_and_negated", False):
         case["same_object_plain_and_negated"] = True
         case["share_terms"] = True
